@@ -8,27 +8,27 @@ baseline = json.load(open('/root/.vp/BASELINE.json'))['cmd']
 CHECKS = {
  "C11": ("model_checking",
          "explicit-state IDDFS over real handlers + reference log",
-         "Exhaustive enumeration (iterative-deepening DFS with a transposition table on the full-store digest) of every propose/delete/advance history over two bridges up to the completed depth, executing the real ophost MsgServer with runTx semantics; after every transition a per-bridge reference log is compared with the OutputProposals/OutputProposal queries, the next-index counter and the raw store, acceptance must imply the model's guard and rejection must leave the digest unchanged.",
+         "Exhaustive enumeration (iterative-deepening DFS with a transposition table on the full-store digest) of every propose/delete/advance/restart-via-genesis history over two bridges up to the completed depth, executing the real ophost MsgServer with runTx semantics; after every transition a per-bridge reference log is compared with the OutputProposals (whole, and paged by 1 and 2, forward and reverse), OutputProposal and LastFinalizedOutput queries, the next-index counter and the raw store, acceptance must imply the model's guard and rejection must leave the digest unchanged.",
          "Trusted: Go toolchain, cosmos-sdk store/auth/bank, harness world construction (mirrors the repo's test setup), one-message-per-tx = baseapp.runTx semantics. Bounded: 2 bridges, period 10s, depth 5 (quick) / 7 (thorough).",
          "DESIGN.md §6 C11"),
  "C02": ("model_checking",
          "explicit-state IDDFS over real handlers + paid-ledger model",
-         "Exhaustive enumeration of every propose/delete/re-propose/advance/finalize history (3 leaves, two trees sharing leaves, a bogus root, output indices 1-2, two submitters) up to the completed depth on the real ophost handlers; oracle: paid[w] <= 1, a finalize is accepted only against a stored, final output whose root matches the proof's tree (independent leaf/tree/output-root code), recipient and escrow balances equal the paid ledger, Claimed query iff paid in every state, rejected messages leave the digest unchanged.",
+         "Exhaustive enumeration of every propose/delete/re-propose/advance/finalize history (3 leaves, two trees sharing leaves, a bogus root, output indices 1-2, two submitters) up to the completed depth on the real ophost handlers; oracle: paid[w] <= 1, a finalize is accepted only against a stored, final output whose root matches the proof's tree (independent leaf/tree/output-root code), recipient and escrow balances equal the paid ledger, Claimed query iff paid in every state, rejected messages leave the digest unchanged. Bridge 2 has a final output and a paid withdrawal of its own from the start. A RestartViaGenesis letter (module genesis exported, JSON round trip, ValidateGenesis, import into the emptied module store) is part of the alphabet, so every clause is also decided across chain restarts.",
          "Trusted: as C11 plus the independent SHA3/merkle reference (pinned against Python hashlib vectors). Bounded: 3 leaves, depth 6 (quick) / 8 (thorough).",
          "DESIGN.md §6 C02"),
  "C05": ("model_checking",
          "explicit-state IDDFS with deadline-region time menu",
-         "Per finalization period of a menu (sub-second, fractional, huge), exhaustive enumeration of propose/delete/finalize/role-update histories interleaved with every block time of the deadline-region menu (each stored output's deadline -1s, -1ns, 0, +1ns, +999ms, +1s), on the real handlers; oracle clauses: no finality gate passes before deadline-1s, non-final outputs are deletable by every authorised role, finalize gate = delete guard = IsFinalized = LastFinalizedOutput, final outputs stay stored/identical/final across every transition, stored period constant; plus the creation/genesis probe over positive, zero and negative periods.",
+         "Per finalization period of a menu (sub-second, fractional, huge), exhaustive enumeration of propose/delete/finalize/role-update histories interleaved with every block time of the deadline-region menu (each stored output's deadline -1s, -1ns, 0, +1ns, +999ms, +1s), on the real handlers; oracle clauses: no finality gate passes before deadline-1s, non-final outputs are deletable by every authorised role, finalize gate = delete guard = IsFinalized = LastFinalizedOutput, final outputs stay stored/identical/final across every transition, stored period constant; plus the creation/genesis probe over positive, zero and negative periods. A RestartViaGenesis letter (module genesis exported, JSON round trip, ValidateGenesis, import into the emptied module store) is part of the alphabet, so every clause is also decided across chain restarts.",
          "Trusted: as C11. The one-second band of the property is built into the oracle. Bounded: <= 3 live outputs, depth 7 (quick) / 9 (thorough), period menu.",
          "DESIGN.md §6 C05"),
  "C10": ("model_checking",
          "explicit-state IDDFS over real handlers + per-bridge counter model",
-         "Exhaustive enumeration of all interleavings of bridge creation and deposits over three bridge ids (two created mid-history), two denoms, zero/non-zero amounts, short/long recipients, payloads and an unfunded sender; oracle: accepted => bridge exists, returned sequence = that bridge's own counter, exactly one event with the 8 requested attributes, balances moved by the amount, token pair = independent derivation and immutable; a freshly created bridge has nothing pre-recorded; queries = model in every state.",
+         "Exhaustive enumeration of all interleavings of bridge creation and deposits over three bridge ids (two created mid-history), two denoms, zero/non-zero amounts, short/long recipients, payloads and an unfunded sender; oracle: accepted => bridge exists, returned sequence = that bridge's own counter, exactly one event with the 8 requested attributes, balances moved by the amount, token pair = independent derivation and immutable; a freshly created bridge has nothing pre-recorded; NextL1Sequence, TokenPairs (whole and paged), TokenPairByL1Denom and TokenPairByL2Denom queries = model in every state. A RestartViaGenesis letter (module genesis exported, JSON round trip, ValidateGenesis, import into the emptied module store) is part of the alphabet, so every clause is also decided across chain restarts.",
          "Trusted: as C11 plus the independent L2-denom / bridge-address derivations. Bounded: 3 ids, depth 7 (quick) / 10 (thorough).",
          "DESIGN.md §6 C10"),
  "C01": ("model_checking",
          "explicit-state IDDFS over real handlers + balance ledger + per-bridge slices",
-         "Exhaustive enumeration of every history over create/deposit/propose/delete/advance/finalize/bank-send/role-update letters on three bridge ids (one never created), two denoms and two trees that differ only in the bridge id, with and without a registration fee; after every transition the ledger model equals every account's balances (and supply = sum of known accounts), the raw records and escrow of every non-addressed bridge are byte-identical, escrow decreases only through a successful finalize of the same bridge with a leaf of that bridge's tree, and rejected messages (incl. an under-funded escrow) leave the digest unchanged.",
+         "Exhaustive enumeration of every history over create/deposit/propose/delete/advance/finalize/bank-send/role-update letters on three bridge ids (one never created), two denoms and two trees that differ only in the bridge id, with and without a registration fee; after every transition the ledger model equals every account's balances (and supply = sum of known accounts), the raw records and escrow of every non-addressed bridge are byte-identical, escrow decreases only through a successful finalize of the same bridge with a leaf of that bridge's tree, and rejected messages (incl. an under-funded escrow) leave the digest unchanged; in every state with a final output every leaf is also claimed with amount+1, amount+2^64 and 2^64 against an escrow topped up to cover it, and must be refused. A RestartViaGenesis letter (module genesis exported, JSON round trip, ValidateGenesis, import into the emptied module store) is part of the alphabet, so every clause is also decided across chain restarts.",
          "Trusted: as C11 plus the independent leaf/tree code. Bounded: depth 5 (quick) / 7 (thorough), amounts 0-2.",
          "DESIGN.md §6 C01"),
  "C03": ("model_checking",
@@ -38,22 +38,22 @@ CHECKS = {
          "DESIGN.md §6 C03"),
  "C06": ("model_checking",
          "explicit-state IDDFS over real handlers + sequence/ledger model",
-         "Exhaustive enumeration of all delivery schedules over 4 L1 sequences x 3 senders (two executors, a stranger) x 2 contents (original / altered replay), interleaved with user withdrawals, transfers and executor-list changes via ExecuteMessages; the reachable state space saturates well below the depth bound. Oracle per transition: seq < next => NOOP + unchanged digest + no event, seq > next => error + unchanged, seq = next => SUCCESS, one event, credited or refunded exactly once, next+1; non-executor => unauthorised, unchanged; NextL1Sequence/NextL2Sequence queries, balances, supply = model in every state.",
+         "Exhaustive enumeration of all delivery schedules over 4 L1 sequences x 3 senders (two executors, a stranger) x 2 contents (original / altered replay), interleaved with user withdrawals, transfers and executor-list changes via ExecuteMessages; the reachable state space saturates well below the depth bound. Oracle per transition: seq < next => NOOP + unchanged digest + no event, seq > next => error + unchanged, seq = next => SUCCESS, one event, credited or refunded exactly once, next+1; non-executor => unauthorised, unchanged; NextL1Sequence/NextL2Sequence queries, balances, supply = model in every state. Sequence 3 is a credited deposit whose hook fails. A RestartViaGenesis letter (module genesis exported, JSON round trip, ValidateGenesis, import into the emptied module store) is part of the alphabet, so every clause is also decided across chain restarts.",
          "Trusted: Go toolchain, cosmos-sdk store/auth/bank, harness world construction (mirrors the repo's test setup), runTx semantics. Bounded: 4 sequences, depth 8 (quick) / 11 (thorough).",
          "DESIGN.md §6 C06"),
  "C09": ("model_checking",
          "explicit-state IDDFS over real handlers + supply/balance ledger",
-         "Exhaustive enumeration of deposit (credited and refunded, conflicting base denoms), transfer and withdrawal histories over bridged, native and unknown denoms, three signers and amounts {1, balance, balance+1}; oracle: supply and every balance = ledger in every state, an accepted withdrawal burns exactly its amount from the signer only, gets the shared gap-free L2 sequence, emits one faithful event whose base denom is the first mapping; native/unknown/over-balance withdrawals are rejected with an unchanged digest; BaseDenom and NextL2Sequence queries = model.",
+         "Exhaustive enumeration of deposit (credited and refunded, conflicting base denoms), transfer and withdrawal histories over bridged, native and unknown denoms, three signers and amounts {1, balance, balance+1}; oracle: supply and every balance = ledger in every state, an accepted withdrawal burns exactly its amount from the signer only, gets the shared gap-free L2 sequence, emits one faithful event whose base denom is the first mapping; native/unknown/over-balance withdrawals are rejected with an unchanged digest; BaseDenom and NextL2Sequence queries = model. Deposits with a failing hook are part of the alphabet. A RestartViaGenesis letter (module genesis exported, JSON round trip, ValidateGenesis, import into the emptied module store) is part of the alphabet, so every clause is also decided across chain restarts.",
          "Trusted: as C06. Bounded: depth 6 (quick) / 8 (thorough).",
          "DESIGN.md §6 C09"),
  "C13": ("model_checking",
          "explicit-state IDDFS over real handlers and Begin/EndBlocker + real CometBFT ValidatorSet mirror",
-         "Exhaustive enumeration of every grouping of add/remove/param operations into blocks over 3 operators x 3 consensus keys from two genesis sets (through the real InitGenesis); every EndBlock batch is validated (no key twice, no unknown removal, no negative power) and applied to a real CometBFT ValidatorSet; at every block boundary mirror = positive-power validators = LastValidatorPowers, bonded <= MaxValidators, removed validators are gone, the historical record lists exactly the bonded set within retention; indexes one-to-one in every state.",
+         "Exhaustive enumeration of every grouping of add/remove/param operations into blocks over 3 operators x 3 consensus keys from two genesis sets (through the real InitGenesis); every EndBlock batch is validated (no key twice, no unknown removal, no negative power) and applied to a real CometBFT ValidatorSet; at every block boundary mirror = positive-power validators = LastValidatorPowers, bonded <= MaxValidators, removed validators are gone, the historical record lists exactly the bonded set and, as long as no block has run with retention 0, only heights within the retention (menu 0/1/3); indexes one-to-one in every state, read through the store, Query/Validators (whole and paged), Query/Validator and the staking-style accessors (ValidatorByConsAddr, Validator, IterateValidators, IterateLastValidators); on a chain whose consensus parameters list ed25519 only, an AddValidator with a secp256k1 key never leads to an update the engine would refuse.",
          "Trusted: as C06 plus CometBFT's ValidatorSet.UpdateWithChangeSet as the engine oracle. Removing the last validator is classified separately (outside the property's acceptance clause). Bounded: depth 6 (quick) / 8 (thorough).",
          "DESIGN.md §6 C13"),
  "C14": ("model_checking",
          "explicit-state IDDFS (C13 system + plan letters) + registration probe matrix per state",
-         "C13's search with a RegisterPlan letter (two heights x 9 operator/key combinations + executor-list variants, at most one per history) so that plans meet every validator-set state, max-validator setting and same-block add/remove; the process-local plan table is part of the state. Oracle at the plan height: EndBlock succeeds, batch accepted by the CometBFT mirror, engine holds exactly the plan key, state agrees, executors = exactly the plan list (and the genesis list before); C13's oracle at all other heights; malformed-registration probes in every state (past/current height, occupied height with another and with the same proposal id, empty fields, bad executor address first / middle / last / only, wrong prefix, unparsable key) leave table and digest unchanged. Known findings D6a/D6b (plan reusing an existing operator with another key / another operator's key) are listed in known_findings.json with structural predicates.",
+         "C13's search with a RegisterPlan letter (two heights x 9 operator/key combinations + executor-list variants + a decodable key of a type no consensus key can be made from, at most one per history; operator addresses sort o2 < o1 < o3 so that fresh operators fall on both sides of the genesis operator) so that plans meet every validator-set state, max-validator setting and same-block add/remove; the process-local plan table is part of the state. Oracle at the plan height: EndBlock succeeds, batch accepted by the CometBFT mirror, engine holds exactly the plan key, state agrees, executors = exactly the plan list (and the genesis list before); C13's oracle at all other heights; malformed-registration probes in every state (past/current height, occupied height with another and with the same proposal id, empty fields, bad executor address first / middle / last / only, wrong prefix, unparsable key) leave table and digest unchanged. Known findings D6a/D6b (plan reusing an existing operator with another key / another operator's key) are listed in known_findings.json with structural predicates.",
          "Trusted: as C13. Bounded: depth 5 (quick) / 6 (thorough).",
          "DESIGN.md §6 C14, §7"),
  "C17": ("model_checking",
@@ -63,17 +63,17 @@ CHECKS = {
          "DESIGN.md §6 C17"),
  "C04": ("model_checking",
          "exhaustive enumeration of withdrawal trees through both chains' real handlers + independent tree builder",
-         "Every withdrawal tree of the stated menus is run through both chains: withdrawals are produced only by the real L2 handlers (user InitiateTokenWithdrawal and the refund path of FinalizeTokenDeposit), parsed from events, committed with the independent sorted-pair tree builder (own SHA3), proposed and finalized on L1, and every leaf is claimed. Enumerated: all single descriptors of kind x amount {1, 2^63-1, 2^63, 2^64-1, 2^64, 2^64+1, 2^128} x denom {short, 128-char, ibc/...} x recipient {lower, upper-case bech32, fresh account}; all trees of size 2-3 (quick) / 2-4 (thorough) over a 12-entry menu; one covering tree per size up to 17. Oracle: every recorded withdrawal with a valid L1 recipient is paid exactly its amount; recording an amount that cannot be committed to a leaf, or a refund to an unpayable recipient, is a violation.",
+         "Every withdrawal tree of the stated menus is run through both chains: withdrawals are produced only by the real L2 handlers (user InitiateTokenWithdrawal and the refund path of FinalizeTokenDeposit), parsed from events, committed with the independent sorted-pair tree builder (own SHA3), proposed and finalized on L1, and every leaf is claimed. Enumerated: all single descriptors of kind (user withdrawal, refund of a malformed-recipient deposit, one or two withdrawals executed inside the deposit's own hook) x amount {1, 2^63-1, 2^63, 2^64-1, 2^64, 2^64+1, 2^128} x denom {short, 128-char, ibc/...} x recipient {lower, upper-case bech32, fresh account}; all trees of size 2-3 (quick) / 2-4 (thorough) over a 12-entry menu; one covering tree per size up to 17. Oracle: every recorded withdrawal with a valid L1 recipient is paid exactly its amount; recording an amount that cannot be committed to a leaf, or a refund to an unpayable recipient, is a violation.",
          "Trusted: as C08. Bounded: menus as listed; holdings above one deposit are produced by minting on L2 and funding the escrow.",
          "DESIGN.md §6 C04"),
  "C08": ("model_checking",
          "explicit-state IDDFS over two chains connected by parsed events + drain from every state",
-         "Exhaustive enumeration of all interleavings of user deposits (credited, refunded for a malformed recipient, refunded after a failing hook), L2 transfers and withdrawals, relays (incl. duplicates and delays), proposals built from recorded withdrawals, challenges with re-proposal, time advances and claims, over two denoms; in every state escrow_L1 = supply_L2 + pending deposits + unpaid recorded withdrawals per denom; from every distinct state a deterministic drain must make every claim succeed exactly once (second claim fails), escrow = L2 supply, users' combined holdings = initial.",
+         "Exhaustive enumeration of all interleavings of user deposits (credited, refunded for a malformed recipient, refunded after a failing hook, and a deposit whose signed two-message hook withdraws half of it again and sends the other half on), L2 transfers and withdrawals, restarts of either chain through its exported genesis, relays (incl. duplicates and delays), proposals built from recorded withdrawals, challenges with re-proposal, time advances and claims, over two denoms; in every state escrow_L1 = supply_L2 + pending deposits + unpaid recorded withdrawals per denom; from every distinct state a deterministic drain must make every claim succeed exactly once (second claim fails), escrow = L2 supply, users' combined holdings = initial.",
          "Trusted: Go toolchain, cosmos-sdk store/auth/bank, world construction, faithful-relayer harness (queues only from parsed events), independent tree builder. Bounded: depth 6 (quick) / 8 (thorough).",
          "DESIGN.md §6 C08"),
  "C19": ("model_checking",
          "explicit-state IDDFS over real handlers + real BridgeHook, full metadata probe matrix per state",
-         "Exhaustive enumeration of create / update-metadata / update-challenger / channel-send histories over two bridges, two challengers, three channels (one missing) with the real hook.BridgeHook wired over store-backed channel/perm keepers (they branch and roll back with the transaction); in every explored state the full 19-entry metadata menu (documented lists, unknown fields, duplicate and differently-cased keys, null, wrong types, non-JSON, empty, oversized) is probed through CreateBridge and UpdateMetadata. An independent metadata reader classifies P/N/A; oracle: any admin change goes to the bridge's challenger, only on listed channels, only on channels that existed with next-send-sequence 1 and no admin (or were already his); P and success => all listed channels administered by the challenger; failure => admin table unchanged; N => never touched; challenger update hands over exactly the listed channels — also when the metadata stored at that moment is any of the 19 shapes (two-step probes UpdateMetadata(m) ; UpdateChallenger in every state).",
+         "Exhaustive enumeration of create / update-metadata / update-challenger / channel-send histories over two bridges, two challengers, four channels on two ports (one missing; icqhost/channel-1 shares its channel id with transfer/channel-1) with the real hook.BridgeHook wired over store-backed channel/perm keepers (they branch and roll back with the transaction); in every explored state the full 22-entry metadata menu (documented lists, unknown fields, duplicate and differently-cased keys, null, wrong types, non-JSON, empty, oversized) is probed through CreateBridge and UpdateMetadata. An independent metadata reader classifies P/N/A; oracle: any admin change goes to the bridge's challenger, only on listed channels, only on channels that existed with next-send-sequence 1 and no admin (or were already his); P and success => all listed channels administered by the challenger; failure => admin table unchanged; N => never touched; challenger update hands over exactly the listed channels — also when the metadata stored at that moment is any of the 22 shapes (two-step probes UpdateMetadata(m) ; UpdateChallenger in every state).",
          "Trusted: as C11; channel and ibc-perm keepers are a harness KV store (IsTaken = an admin is set). Bounded: depth 5 (quick) / 6 (thorough).",
          "DESIGN.md §6 C19"),
  "C20": ("model_checking",
@@ -88,17 +88,17 @@ CHECKS = {
          "DESIGN.md §6 C07"),
  "C12": ("model_checking",
          "explicit-state search over role rotations (saturating) + full message-type x signer matrix per state",
-         "L1: every role assignment reachable by UpdateProposer/UpdateChallenger (to X or X2, by governance or by the current holder) on two bridges is enumerated (the state space saturates at 16 assignments); L2: admin changes, executor-list changes (both through ExecuteMessages), bridge-info binding and an executor-change plan executed by the real EndBlocker (saturates at 36 states). In every state every message type of the module is delivered by every signer (governance/authority, every current and past role holder, batch submitter, creator, stranger), built so that it would succeed but for authorization; oracle = the property's role table on the model's current holders (allowed => succeeds, also for a new holder immediately; otherwise fails with an unchanged digest), signer read back through GetMsgV1Signers; ExecuteMessages batches are all-or-nothing with authority-only inner signers; SetBridgeInfo cannot re-point bridge id, address, L1 chain id or a set L1 client id.",
+         "L1: every role assignment reachable by UpdateProposer/UpdateChallenger (to X or X2, by governance or by the current holder) on two bridges is enumerated (the state space saturates at 16 assignments); L2: admin changes, executor-list changes (both through ExecuteMessages), bridge-info binding and executor-change plans (lists [e2], [e3], [e2,e3]: shorter, longer, differently ending) executed by the real EndBlocker (the state space saturates). In every state every message type of the module is delivered by every signer (governance/authority, every current and past role holder, batch submitter, creator, stranger), built so that it would succeed but for authorization; oracle = the property's role table on the model's current holders (allowed => succeeds, also for a new holder immediately; otherwise fails with an unchanged digest), signer read back through GetMsgV1Signers; ExecuteMessages batches are all-or-nothing with authority-only inner signers; SetBridgeInfo cannot re-point bridge id, address, L1 chain id or a set L1 client id.",
          "Trusted: as C11/C06. UpdateOracle carries a fully signed commit wherever the L1 client is bound and a host validator set is recorded; elsewhere only its authorization class is probed.",
          "DESIGN.md §6 C12"),
  "C15": ("model_checking",
          "explicit-state search over update/refresh histories + exhaustive vote-shape product per state",
-         "Mode S enumerates histories of oracle updates (three timestamps, full and partial pair coverage), validator-set refreshes (lower/equal/higher height x configured/other/empty client x same/other set) and oracle-flag toggles (plus, in a third configuration whose bridge info starts without an L1 client id so that no set can be recorded, the one-time SetL1ClientId) on the real UpdateOracle handler, connect x/oracle keeper, codecs and vote aggregator; Mode P executes, at the root (and every depth-1 state in the thorough tier), all 14^n combinations of per-validator vote shapes (absent, signed p/q, missing pair, missing timestamp, bad signature, other chain id / height / round, listed twice, non-commit empty / with extension / with unsigned extension / with signature only) x unknown validator, and in every state the sender / update-height / equal-and-older-timestamp variations. Oracle (soundness direction): a changed price implies executor, flag on, height >= recorded set height, distinct known validators with a correctly signed price (by the harness's own signing bookkeeping) holding >= 2/3 of the recorded power, strictly larger timestamp; rejected => digest unchanged; set replaced => configured client and strictly higher height.",
+         "Mode S enumerates histories of oracle updates (three timestamps, full and partial pair coverage), validator-set refreshes (lower/equal/higher height x configured/other/empty client x same/other set) and oracle-flag toggles (plus, in a third configuration whose bridge info starts without an L1 client id so that no set can be recorded, the one-time SetL1ClientId) on the real UpdateOracle handler, connect x/oracle keeper, codecs and vote aggregator; Mode P executes, at the root (and every depth-1 state in the thorough tier), all 16^n combinations of per-validator vote shapes (absent, signed p/q, missing pair, missing timestamp, bad signature, other chain id / height / round, listed twice, non-commit empty / with extension / with unsigned extension / with signature only, commit flag with unsigned extension, correctly signed undecodable extension) x unknown validator, and in every state the sender / update-height / equal-and-older-timestamp variations. Oracle (soundness direction): a changed price implies executor, flag on, height >= recorded set height, distinct known validators with a correctly signed price (by the harness's own signing bookkeeping) holding >= 2/3 of the recorded power, strictly larger timestamp; rejected => digest unchanged; set replaced => configured client and strictly higher height.",
          "Trusted: as C06 plus connect's codecs/aggregator and CometBFT ed25519. Bounded: validator sets (1,1,1), (3,1,1) and (thorough) (2,1,1,1); depth 3 (quick) / 4 (thorough).",
          "DESIGN.md §6 C15"),
  "C16": ("model_checking",
          "explicit-state IDDFS over all message types + export/import/differential probe script in every state",
-         "Mode S enumerates histories over every ophost message type (two bridges, deposits, propose/delete/re-propose, claims, two batch-info updates, metadata, oracle flag, role updates, params, time) and every opchild message type (credited and refunded deposits, withdrawals, add/remove validators, params, bridge info, blocks). In every distinct state the module genesis is exported (with auth and bank carried along), validated, round-tripped through JSON, imported into a blank world by the real InitGenesis, re-exported (must be byte-identical), and a fixed probe script (every message type incl. wrong signers, stale/next deposits, claims against two indices, deletes, creation, two blocks; every query type) is run on original and clone: responses, errors, events, validator updates and final exports must be identical. L2: InitGenesis's validator updates applied to an empty CometBFT set = bonded set.",
+         "Mode S enumerates histories (from a one-bridge root and from a root with two bridges that each have deposits, a final output, a paid withdrawal and a batch-info change) over every ophost message type (two bridges, deposits, propose/delete/re-propose, claims, two batch-info updates, metadata, oracle flag, role updates, params, time) and every opchild message type (credited and refunded deposits, withdrawals, add/remove validators, params, bridge info, blocks). In every distinct state the module genesis is exported (with auth and bank carried along), validated, round-tripped through JSON, imported into a blank world by the real InitGenesis, re-exported (must be byte-identical), the imported module store compared key by key with the original (L1 may add per-bridge counters at their default; L2 lacks only per-height history and the recorded L1 validator set), and a fixed probe script (every message type incl. wrong signers, stale/next deposits, claims against two indices, deletes, creation, two blocks; every query type) is run on original and clone: responses, errors, events, validator updates and final exports must be identical. L2: InitGenesis's validator updates applied to an empty CometBFT set = bonded set.",
          "Trusted: as C11/C06; auth and bank genesis import/export of the SDK. Bounded: depth 4/5 (L1) and 5/6 (L2).",
          "DESIGN.md §6 C16"),
  "C18": ("model_checking",
